@@ -167,6 +167,16 @@ pub fn job_c14(out_dir: &str, tier: &str, seed: u64) {
         let sp = sparse();
         run_variants(&mut sh, "c14", &["C14"], &gen::merge(&sp[i % sp.len()], &json!({"strict": strict, "enc": enc})), &input, &cutsets, "none", &mut n);
     }
+    // (2b) transition coverage from the specification (spec/TokCover.tla): every control state x every word, cut at the
+    // end of the witness and after the word
+    let cover = gen::cover_inputs(quick, false);
+    let ncover = cover.len();
+    for (input, c1, c2) in &cover {
+        let mut cutsets: Vec<Vec<usize>> = vec![vec![]];
+        if *c1 > 0 && *c1 < input.len() { cutsets.push(vec![*c1]); }
+        if *c2 < input.len() && c2 != c1 { cutsets.push(vec![*c2]); }
+        run_variants(&mut sh, "c14", &["C14"], &gen::merge(&all, &json!({"strict": false})), input, &cutsets, "sim", &mut n);
+    }
     // (3) long text so that the text decoder's internal buffer (1 KiB) is crossed
     for i in 0..(if quick { 12 } else { 200 }) {
         let mut input = b"<p>".to_vec();
@@ -178,7 +188,7 @@ pub fn job_c14(out_dir: &str, tier: &str, seed: u64) {
         let cutsets = vec![vec![], vec![1024], vec![3, 1030], vec![rng.below(len), len + 4]];
         run_variants(&mut sh, "c14", &["C14"], &gen::merge(&all, &json!({"strict": false, "enc": enc})), &input, &cutsets, "sim", &mut n);
     }
-    sh.finish(json!({"rule": "capture-all observation (doctype, comments, text, every element and its end tag, attribute name/value ranges) of: every fragment, all ordered pairs over a seed-rotated pool, seeded documents (also with earlier rewriting, sparse handler sets that switch scan/lex modes, legacy encodings), text longer than the decoder buffer; schedules: every 1-cut, 2-cuts (short), byte-wise, empty writes, random k-cuts. Distinct = distinct (input, observation); non-trivial = non-empty input."}));
+    sh.finish(json!({"rule": "capture-all observation (doctype, comments, text, every element and its end tag, attribute name/value ranges) of: every fragment, all ordered pairs over a seed-rotated pool, seeded documents (also with earlier rewriting, sparse handler sets that switch scan/lex modes, legacy encodings), text longer than the decoder buffer; schedules: every 1-cut, 2-cuts (short), byte-wise, empty writes, random k-cuts; plus transition coverage generated from the specification: spec/TokCover.tla yields a shortest witness per control state of the tokenizer table, each extended by every word of its vocabulary and a state-discriminating suffix, cut at the end of the witness and after the word. Distinct = distinct (input, observation); non-trivial = non-empty input.", "spec_transition_inputs": ncover}));
 }
 
 pub fn job_c16(out_dir: &str, tier: &str, seed: u64) {
